@@ -99,6 +99,11 @@ class ConfigList(ComposedNode, list):
     def remove(self, value):
         self._del(self.index(value))
 
+    def pop(self, index=-1):
+        if not len(self):
+            raise IndexError('pop from empty list')
+        return self._del(index)
+
     def clear(self):
         ComposedNode.ayns.clear(self)
         list.clear(self)
